@@ -31,6 +31,9 @@ func init() {
 			"for pairs (A,B) of ordered subsets of the 5 keys built through histories with detours (thorough: all 326x326 pairs per kind; quick: every 16th B per A); C) random mixed histories over two variables, aliasing included. Host builtins check(i, coll, result) and views(i, list(coll), coll.items()) compare with the model after every statement (length, iteration order, membership and value of every key of the id space, VerifCheckTable, then the Starlark-level iteration). " +
 			"(r) RANDOM: histories of 10^4 operations over pools of 1200-5000 keys with hashes all equal / equal in the low 16 bits / sequential / random / 16 distinct / {0,1}, alternating fill and drain phases, through the Go API or through method calls; result of every operation and Len compared at once, " +
 			"full order every 500 operations, VerifCheckTable every 1000 (2500 for single-chain distributions), derived Go-API operations (Union, Intersection, Difference, SymmetricDifference, IsSubset, IsSuperset, Dict.Union) at 3 random points. " +
+			"(a) ALIASING of derived collections (both tiers, complete over the listed shapes): for every operation the spec says returns a NEW collection (Go API Dict.Union, Set.Union/Intersection/Difference/SymmetricDifference with set and list iterators; Starlark dict |, dict(x), dict(x, kw), dict(x.items()), comprehension, set | & - ^, " +
+			"set.union/intersection/difference/symmetric_difference with set/list/no argument, set(x), keys/values/items/list) and every pair of operand shapes {never-allocated zero value / literal, constructor-empty, emptied by delete, by pop-first, by clear, grown then cleared, 1, 3, 5 keys, 9-entry chain with an overflow bucket} plus the identical operand (x OP x): " +
+			"the result is a different object; inserting a fresh key into, deleting from and clearing the result leaves both operands equal to their models; the same mutations of either operand leave a fresh result equal to its model; freezing the operands leaves the result mutable (violations: key 'C12 alias <operation>'). The random arm also clears every derived result and re-checks the receiver. " +
 			"distinct_nontrivial counts distinct (start, live universe keys in order, surviving fillers, bucket count, overflow-bucket count) states reached in arm x plus one per case of the other arms.",
 		Assumptions: []string{
 			"the oracle is a plain ordered association list; derived-collection orders are those of doc/spec.md (`&` keeps the left operand's order; symmetric_difference lists S-minus-y then y-minus-S; dict | and |= keep left keys in place; popitem/pop remove the first entry)",
@@ -49,7 +52,7 @@ func finish(ev map[string]any) (string, bool) {
 		return "", false
 	}
 	cnt, _ := ev["counters"].(map[string]int64)
-	for _, k := range []string{"x_sequences_judged", "x_table_invariant_checks", "x_undo_crosschecked_cases", "x_grow_events_in_enumerated_ops", "s_checks_executed", "s_operand_pairs", "r_operations", "r_table_invariant_checks", "r_derived_operations"} {
+	for _, k := range []string{"x_sequences_judged", "x_table_invariant_checks", "x_undo_crosschecked_cases", "x_grow_events_in_enumerated_ops", "s_checks_executed", "s_operand_pairs", "r_operations", "r_table_invariant_checks", "r_derived_operations", "s_alias_sequences", "a_goapi_alias_scenarios"} {
 		if cnt[k] <= 0 {
 			return "monitor observed nothing for " + k, true
 		}
@@ -91,6 +94,12 @@ func run(c *driver.Ctx) {
 	}
 	if on("s") || on("C") {
 		runStarlarkC(c)
+	}
+	if on("s") || on("D") {
+		runStarlarkD(c)
+	}
+	if on("a") {
+		runAliasGo(c)
 	}
 	if on("r") {
 		runRandom(c)
